@@ -157,6 +157,149 @@ type relSpec struct {
 	ManyOuts  []manyOut
 	Add       []manyOut // nil = no AddMembers
 	Remove    []manyOut
+	Custom    *customSpec // a RelationshipResolver implementation of the application's own
+}
+
+// what a custom resolver returns for one resource value: an error, or a types.Relationship
+const (
+	dAbsent = iota // Data == nil
+	dNull
+	dOne
+	dMany
+	dEcho // add / remove: the members handed in
+)
+
+type customOut struct {
+	Err    bool
+	Status string
+	Links  string // name of a links preset (see linkPresets)
+	Shared bool   // the Links map is ONE map per preset and schema, returned again and again
+	Data   int
+	One    types.ResourceId
+	Ids    []types.ResourceId
+	Meta   int  // 0 nil, 1 empty map, 2 {"count": 1}, 3 {"count": 1, "live": chan} (does not marshal)
+	Always bool // Data is returned even when it was not requested
+}
+
+type customSpec struct {
+	Outs, Add, Remove []customOut
+}
+
+var linkPresetNames = []string{"nil", "empty", "extra", "ownself", "ownrelated", "both"}
+
+func linkPreset(name string) types.Links {
+	switch name {
+	case "empty":
+		return types.Links{}
+	case "extra":
+		return types.Links{"describedby": "https://example.com/d"}
+	case "ownself":
+		return types.Links{"self": "/custom/self"}
+	case "ownrelated":
+		return types.Links{"related": "/custom/related", "about": "x"}
+	case "both":
+		return types.Links{"self": "/s", "related": "/r", "z-extra": "1"}
+	}
+	return nil
+}
+
+func (o customOut) sexp() sexp.Node {
+	if o.Err {
+		return sexp.T("err", sexp.Str(o.Status))
+	}
+	var lk []sexp.Node
+	preset := linkPreset(o.Links)
+	keys := make([]string, 0, len(preset))
+	for k := range preset {
+		keys = append(keys, k)
+	}
+	sort.Strings(keys)
+	for _, k := range keys {
+		lk = append(lk, sexp.L(sexp.Str(k), sexp.Str(preset[k])))
+	}
+	var data sexp.Node
+	switch o.Data {
+	case dAbsent:
+		data = sexp.Sym("absent")
+	case dNull:
+		data = sexp.Sym("null")
+	case dOne:
+		data = sexp.T("one", sexp.Str(o.One.Type), sexp.Str(o.One.Id))
+	case dMany:
+		data = sexp.T("many", ridList(o.Ids)...)
+	default:
+		data = sexp.Sym("echo")
+	}
+	var meta []sexp.Node
+	switch o.Meta {
+	case 2:
+		meta = []sexp.Node{sexp.L(sexp.Str("count"), sexp.Bool(true))}
+	case 3:
+		meta = []sexp.Node{sexp.L(sexp.Str("count"), sexp.Bool(true)), sexp.L(sexp.Str("live"), sexp.Bool(false))}
+	}
+	return sexp.T("crel", sexp.T("links", lk...), sexp.T("data", data), sexp.T("meta", meta...), sexp.Bool(o.Always))
+}
+
+// the resolver itself; pool holds the shared Links maps of the schema it belongs to
+type customResolver struct {
+	spec *customSpec
+	pool map[string]types.Links
+	rec  *recorder
+}
+
+func (c customResolver) relationship(o customOut, includeData bool, members []types.ResourceId) (types.Relationship, *types.Error) {
+	if o.Err {
+		return types.Relationship{}, mkErr(o.Status)
+	}
+	var rel types.Relationship
+	if o.Shared {
+		if _, ok := c.pool[o.Links]; !ok {
+			c.pool[o.Links] = linkPreset(o.Links)
+		}
+		rel.Links = c.pool[o.Links]
+	} else {
+		rel.Links = linkPreset(o.Links)
+	}
+	if includeData {
+		var data any
+		switch o.Data {
+		case dNull:
+			rel.Data = &data
+		case dOne:
+			data = o.One
+			rel.Data = &data
+		case dMany:
+			data = append([]types.ResourceId{}, o.Ids...)
+			rel.Data = &data
+		case dEcho:
+			data = append([]types.ResourceId{}, members...)
+			rel.Data = &data
+		}
+	}
+	switch o.Meta {
+	case 1:
+		rel.Meta = map[string]any{}
+	case 2:
+		rel.Meta = map[string]any{"count": 1}
+	case 3:
+		rel.Meta = map[string]any{"count": 1, "live": make(chan int)}
+	}
+	return rel, nil
+}
+
+func (c customResolver) ResolveRelationship(ctx context.Context, x *res, dataRequested bool, params url.Values) (types.Relationship, *types.Error) {
+	o := nthOrLast(c.spec.Outs, x.v, customOut{})
+	return c.relationship(o, dataRequested || o.Always, nil)
+}
+
+func (c customResolver) AddRelationshipMembers(ctx context.Context, x *res, members []types.ResourceId) (types.Relationship, *types.Error) {
+	c.rec.calls = append(c.rec.calls, sexp.T("add", ridList(members)...))
+	return c.relationship(nthOrLast(c.spec.Add, x.v, customOut{}), true, members)
+}
+
+func (c customResolver) RemoveRelationshipMembers(ctx context.Context, x *res, members []types.ResourceId) (types.Relationship, *types.Error) {
+	c.rec.calls = append(c.rec.calls, sexp.T("remove", ridList(members)...))
+	return c.relationship(nthOrLast(c.spec.Remove, x.v, customOut{}), true, members)
 }
 
 type entry struct {
@@ -244,7 +387,9 @@ func (t typeSpec) sexp() sexp.Node {
 	sort.Slice(rels, func(i, j int) bool { return rels[i].Name < rels[j].Name })
 	var rs []sexp.Node
 	for _, r := range rels {
-		if r.Many {
+		if r.Custom != nil {
+			rs = append(rs, sexp.T("custom", sexp.Str(r.Name), outsSexp(r.Custom.Outs), outsSexp(r.Custom.Add), outsSexp(r.Custom.Remove)))
+		} else if r.Many {
 			rs = append(rs, sexp.T("many", sexp.Str(r.Name), sexp.Bool(r.ByDefault), outsSexp(r.ManyOuts), changeSexp(r.Add), changeSexp(r.Remove)))
 		} else {
 			rs = append(rs, sexp.T("one", sexp.Str(r.Name), sexp.Bool(r.ByDefault), outsSexp(r.One)))
@@ -349,6 +494,7 @@ func manyResult(o manyOut, members []types.ResourceId, emptyAsNil bool) ([]types
 
 func build(specs []typeSpec, rec *recorder) *jsonapi.Schema {
 	def := &jsonapi.SchemaDefinition{ResourceTypes: map[string]jsonapi.AnyResourceType{}}
+	pool := map[string]types.Links{} // the shared Links maps of the custom resolvers of this schema
 	for _, ts := range specs {
 		ts := ts
 		rt := jsonapi.ResourceType[*res]{}
@@ -362,7 +508,9 @@ func build(specs []typeSpec, rec *recorder) *jsonapi.Schema {
 			rt.Relationships = map[string]*jsonapi.RelationshipDefinition[*res]{}
 			for _, r := range ts.Rels {
 				r := r
-				if r.Many {
+				if r.Custom != nil {
+					rt.Relationships[r.Name] = &jsonapi.RelationshipDefinition[*res]{Resolver: customResolver{r.Custom, pool, rec}}
+				} else if r.Many {
 					rr := jsonapi.ToManyRelationshipResolver[*res]{
 						ResolveByDefault: r.ByDefault,
 						Resolve: func(ctx context.Context, x *res) ([]types.ResourceId, *types.Error) {
@@ -562,7 +710,7 @@ func (bd body) sexp() sexp.Node {
 	if bd.Tree == nil {
 		return sexp.Sym("none")
 	}
-	return sexp.T("json", bd.Tree.sexp())
+	return sexp.T("json", bd.Tree.sexp(), sexp.Str(bd.Tail))
 }
 
 // ------------------------------------------------------------------------------------------------
@@ -742,7 +890,7 @@ func itemOf(raw json.RawMessage, what string) sexp.Node {
 		}
 		for _, k := range sortedKeys(rm) {
 			ro := members(rm[k], what+".relationships."+k)
-			only(ro, what+".relationships."+k, "links", "data")
+			only(ro, what+".relationships."+k, "links", "data", "meta")
 			var lk []sexp.Node
 			if l, ok := ro["links"]; ok {
 				lk = linksOf(l, what+".relationships."+k+".links")
@@ -751,7 +899,17 @@ func itemOf(raw json.RawMessage, what string) sexp.Node {
 			if d, ok := ro["data"]; ok {
 				data = linkageOf(d, what+".relationships."+k+".data")
 			}
-			rels = append(rels, sexp.L(sexp.Str(k), sexp.T("links", lk...), sexp.T("data", data)))
+			var meta []sexp.Node
+			if mraw, ok := ro["meta"]; ok {
+				mm := members(mraw, what+".relationships."+k+".meta")
+				if len(mm) == 0 {
+					fail("%s.relationships.%s.meta is empty", what, k)
+				}
+				for _, mk := range sortedKeys(mm) {
+					meta = append(meta, sexp.Str(mk))
+				}
+			}
+			rels = append(rels, sexp.L(sexp.Str(k), sexp.T("links", lk...), sexp.T("data", data), sexp.T("meta", meta...)))
 		}
 	}
 	return sexp.L(sexp.Str(str(m["type"], what+".type")), sexp.Str(str(m["id"], what+".id")), sexp.T("attrs", attrs...), sexp.T("rels", rels...))
@@ -831,9 +989,9 @@ func observeBody(b []byte) (node sexp.Node) {
 // one case
 // ------------------------------------------------------------------------------------------------
 
-func runCase(r *rng.R, specs []typeSpec, rq request) sexp.Node {
-	rec := &recorder{}
-	schema := build(specs, rec)
+// one request against the API value; the recorder is emptied first
+func serve(r *rng.R, api jsonapi.API, rec *recorder, rq request) (reqNode, pmtNode, obs sexp.Node) {
+	rec.calls = nil
 	text := rq.Body.text(r)
 	hr := httptest.NewRequest("GET", "/", strings.NewReader(text))
 	hr.Method = rq.Method
@@ -848,22 +1006,44 @@ func runCase(r *rng.R, specs []typeSpec, rq request) sexp.Node {
 				p = true
 			}
 		}()
-		jsonapi.API{Schema: schema}.ServeHTTP(w, hr)
+		api.ServeHTTP(w, hr)
 		return false
 	}()
-	var obs sexp.Node
 	if panicked {
 		obs = sexp.T("obs", sexp.Sym("panic"))
 	} else {
 		obs = sexp.T("obs", sexp.T("status", sexp.Int(w.Code)), sexp.T("ctype", sexp.Str(w.Header().Get("Content-Type"))),
 			sexp.T("body", observeBody(w.Body.Bytes())), sexp.T("calls", rec.calls...))
 	}
+	return rq.sexp(hr.URL), pmtTable(rq.Accept), obs
+}
+
+func schemaSexp(specs []typeSpec) sexp.Node {
 	var ts []sexp.Node
 	for _, s := range specs {
 		ts = append(ts, s.sexp())
 	}
-	return sexp.T("case", sexp.T("schema", ts...), sexp.T("pmt", pmtTable(rq.Accept).List...),
-		sexp.T("request", rq.sexp(hr.URL)), sexp.T("observed", obs))
+	return sexp.T("schema", ts...)
+}
+
+func runCase(r *rng.R, specs []typeSpec, rq request) sexp.Node {
+	rec := &recorder{}
+	api := jsonapi.API{Schema: build(specs, rec)}
+	reqNode, pmtNode, obs := serve(r, api, rec, rq)
+	return sexp.T("case", schemaSexp(specs), sexp.T("pmt", pmtNode.List...), sexp.T("request", reqNode), sexp.T("observed", obs))
+}
+
+// a history: several requests, one after the other, against ONE API value (one schema, one set of
+// resolvers with their shared Links maps)
+func runHistory(r *rng.R, specs []typeSpec, rqs []request) sexp.Node {
+	rec := &recorder{}
+	api := jsonapi.API{Schema: build(specs, rec)}
+	var steps []sexp.Node
+	for _, rq := range rqs {
+		reqNode, pmtNode, obs := serve(r, api, rec, rq)
+		steps = append(steps, sexp.T("step", sexp.T("pmt", pmtNode.List...), sexp.T("request", reqNode), sexp.T("observed", obs)))
+	}
+	return sexp.T("case", schemaSexp(specs), sexp.T("steps", steps...))
 }
 
 // ------------------------------------------------------------------------------------------------
@@ -954,6 +1134,92 @@ func richSchema(subset, otherSubset int, flip bool) []typeSpec {
 	return []typeSpec{
 		mk("things", subset, thingAttrs, thingRels(!flip, flip, subset&16 == 0, subset&32 == 0), rid("things", "new")),
 		mk("others", otherSubset, otherAttrs, nil, rid("things", "made")), // Create may answer with another type
+	}
+}
+
+// ------------------------------------------------------------------------------------------------
+// the "custom" schema family: relationships resolved by RelationshipResolver implementations of the
+// application's own, whose Links maps are (shared = true) ONE map per schema, handed out for every
+// resource, both relationships and every request
+// ------------------------------------------------------------------------------------------------
+
+func customSchema(preset string, shared bool) []typeSpec {
+	co := func(data int, meta int, always bool) customOut {
+		return customOut{Links: preset, Shared: shared, Data: data, Meta: meta, Always: always}
+	}
+	one := func(t, id string, meta int, always bool) customOut {
+		o := co(dOne, meta, always)
+		o.One = rid(t, id)
+		return o
+	}
+	many := func(meta int, ids ...types.ResourceId) customOut {
+		o := co(dMany, meta, false)
+		o.Ids = ids
+		return o
+	}
+	owner := &customSpec{
+		Outs: []customOut{
+			one("others", "1", 0, false),
+			one("things", "v2", 2, true),
+			co(dAbsent, 0, false), // no Data although requested
+			{Err: true, Status: "403"},
+			co(dNull, 3, false), // Meta that does not marshal
+			many(1, rid("things", "v1"), rid("things", "1"), rid("others", "1"), rid("things", "v2"), rid("unknown", "1")),
+			one("things", "v6", 0, false),
+		},
+		Add:    []customOut{co(dEcho, 2, false), {Err: true, Status: "409"}, co(dAbsent, 0, false), many(0)},
+		Remove: []customOut{many(0), co(dEcho, 3, false), {Err: true, Status: ""}, co(dNull, 0, false)},
+	}
+	tags := &customSpec{
+		Outs:   []customOut{many(0, rid("things", "v1"), rid("things", "v5")), many(2), co(dNull, 0, true)},
+		Add:    []customOut{co(dEcho, 0, false)},
+		Remove: []customOut{co(dEcho, 0, false)},
+	}
+	things := typeSpec{Name: "things", Attrs: []attrSpec{{Name: "a", Outs: []aout{{aOk, ""}}}},
+		Rels: []relSpec{
+			{Name: "owner", Custom: owner},
+			{Name: "tags", Custom: tags},
+			{Name: "one", ByDefault: true, One: []oneOut{{oId, rid("things", "v1"), ""}}},
+		},
+		Get: idTable(), Patch: idTable(), Create: &createSpec{Out: hout{Kind: hVal, V: 1}, Id: rid("things", "new")}, Delete: idTable()}
+	others := typeSpec{Name: "others", Get: idTable(),
+		Rels: []relSpec{{Name: "back", Custom: &customSpec{Outs: []customOut{one("things", "1", 0, true)}, Add: []customOut{co(dEcho, 0, false)}, Remove: []customOut{co(dEcho, 0, false)}}}}}
+	return []typeSpec{things, others}
+}
+
+func thingDoc(id string) body {
+	return treeBody(jobj(f("data", jobj(f("type", jstr("things")), f("id", jstr(id))))))
+}
+
+func membersDoc(ids ...jv) body { return treeBody(jobj(f("data", jarr(ids...)))) }
+
+// histories in which a value written for one resource / relationship / request could leak into a later one
+func customHistories() [][]request {
+	g := func(p string) request { return request{Method: "GET", Path: p, Accept: okAccept} }
+	m := func(method, p string, b body) request {
+		return request{Method: method, Path: p, Accept: okAccept, Body: b}
+	}
+	return [][]request{
+		{g("/things/1"), g("/things/v1"), g("/things/1")},
+		{g("/things/v1"), g("/things/1")},
+		{g("/things/v1/relationships/owner"), g("/things/1/relationships/owner"), g("/things/1")},
+		{g("/things/1/relationships/tags"), g("/things/1/relationships/owner"), g("/things/v6/relationships/owner")},
+		{g("/things/v5/owner")},
+		{g("/things/1/tags"), g("/things/v1")},
+		{g("/things/1/owner"), g("/things/v1/owner"), g("/things/v6/owner")},
+		{g("/others/1"), g("/things/1"), g("/others/1/back"), g("/others/2")},
+		{m("PATCH", "/things/1", thingDoc("1")), g("/things/v1"), m("PATCH", "/things/v1", thingDoc("v1"))},
+		{m("POST", "/things", treeBody(jobj(f("data", jobj(f("type", jstr("things"))))))), g("/things/1")},
+		{m("POST", "/things/1/relationships/owner", membersDoc(jid("others", "1"))), g("/things/v1/relationships/owner"), g("/things/v1")},
+		{m("DELETE", "/things/v1/relationships/owner", membersDoc(jid("others", "1"), jid("others", "2"))), g("/things/1"), m("DELETE", "/things/1/relationships/tags", membersDoc())},
+		{m("PATCH", "/things/1/relationships/owner", treeBody(jobj(f("data", jid("others", "3"))))), g("/things/v1/relationships/owner")},
+		{m("PATCH", "/things/v1/owner", thingDoc("v2")), g("/things/1")},
+		{g("/things/v2/owner"), m("PATCH", "/things/v2/owner", thingDoc("x")), g("/things/v2"), g("/things/v2/relationships/owner")},
+		{g("/things/v3"), g("/things/v3/owner"), g("/things/v3/relationships/owner"), g("/things/1")},
+		{g("/things/v4"), g("/things/v4/relationships/owner"), g("/things/v4/owner"), g("/things/1")},
+		{m("POST", "/things/v1/relationships/owner", membersDoc()), m("POST", "/things/v2/relationships/owner", membersDoc()), m("POST", "/things/v3/relationships/owner", membersDoc()), g("/things/1/relationships/owner")},
+		{m("DELETE", "/things/v1/relationships/owner", membersDoc(jid("a", "b"))), m("DELETE", "/things/v2/relationships/owner", membersDoc()), m("DELETE", "/things/v3/relationships/owner", membersDoc()), g("/things/1")},
+		{g("/things/1"), g("/things/1"), m("DELETE", "/things/1", rawBody("")), g("/things/v1")},
 	}
 }
 
@@ -1150,6 +1416,49 @@ func randManyOut(r *rng.R, echo bool) manyOut {
 	return manyOut{Kind: mIds, Ids: ids}
 }
 
+func randCustomOut(r *rng.R, preset string, shared bool, change bool) customOut {
+	if r.Chance(1, 8) && !healthy {
+		return customOut{Err: true, Status: rng.Pick(r, statuses)}
+	}
+	o := customOut{Links: preset, Shared: shared, Always: r.Chance(1, 3)}
+	if r.Chance(1, 4) {
+		// the same resolver may also hand out other maps
+		o.Links = rng.Pick(r, linkPresetNames)
+	}
+	switch k := r.Intn(8); {
+	case k == 0:
+		o.Data = dAbsent
+	case k == 1:
+		o.Data = dNull
+	case k <= 4:
+		o.Data = dOne
+		o.One = randRid(r)
+	case k == 5 && change:
+		o.Data = dEcho
+	default:
+		o.Data = dMany
+		for n := r.Intn(4); n > 0; n-- {
+			o.Ids = append(o.Ids, randRid(r))
+		}
+	}
+	o.Meta = rng.Pick(r, []int{0, 0, 0, 1, 2, 2, 3})
+	if healthy && o.Meta == 3 {
+		o.Meta = 2
+	}
+	return o
+}
+
+func randCustom(r *rng.R) *customSpec {
+	preset, shared := rng.Pick(r, linkPresetNames), r.Chance(2, 3)
+	c := &customSpec{}
+	for v := 0; v < 4; v++ {
+		c.Outs = append(c.Outs, randCustomOut(r, preset, shared, false))
+		c.Add = append(c.Add, randCustomOut(r, preset, shared, true))
+		c.Remove = append(c.Remove, randCustomOut(r, preset, shared, true))
+	}
+	return c
+}
+
 func randSchema(r *rng.R) []typeSpec {
 	n := r.Range(1, 3)
 	var out []typeSpec
@@ -1180,6 +1489,11 @@ func randSchema(r *rng.R) []typeSpec {
 				continue
 			}
 			rs := relSpec{Name: name, Many: r.Bool(), ByDefault: r.Bool()}
+			if r.Chance(1, 3) {
+				rs.Custom = randCustom(r)
+				ts.Rels = append(ts.Rels, rs)
+				continue
+			}
 			for v := 0; v < 4; v++ {
 				if rs.Many {
 					rs.ManyOuts = append(rs.ManyOuts, randManyOut(r, false))
@@ -1367,7 +1681,7 @@ func randBody(r *rng.R, wantType, wantId string) body {
 	}
 	bd := treeBody(jobj(f(key("data"), jobj(ms...))))
 	if r.Chance(1, 20) {
-		bd.Tail = rng.Pick(r, []string{" x", "{}", "\n]"})
+		bd.Tail = rng.Pick(r, []string{" x", "{}", "\n]", " ", "\n", "\t\r\n "})
 	}
 	return bd
 }
@@ -1460,6 +1774,19 @@ func main() {
 			h.Case(func(r *rng.R) sexp.Node { return runCase(r, specs, rq) })
 		}
 
+		// 0. schemas NewSchema must refuse: library resolvers without a Resolve function (calling them
+		// would panic at request time); a refusal that is missing is reported as a harness panic
+		h.Case(func(r *rng.R) sexp.Node {
+			for _, resolver := range []jsonapi.RelationshipResolver[*res]{jsonapi.ToOneRelationshipResolver[*res]{}, jsonapi.ToManyRelationshipResolver[*res]{ResolveByDefault: true}} {
+				_, err := jsonapi.NewSchema(&jsonapi.SchemaDefinition{ResourceTypes: map[string]jsonapi.AnyResourceType{
+					"things": jsonapi.ResourceType[*res]{Relationships: map[string]*jsonapi.RelationshipDefinition[*res]{"r": {Resolver: resolver}}},
+				}})
+				if err == nil {
+					panic("NewSchema accepted a relationship resolver without a Resolve function")
+				}
+			}
+			return runCase(r, richSchema(15, 15, false), defaultRequest())
+		})
 		// 1. Accept variants x a few endpoints (everything else fine)
 		for _, acc := range acceptVariants {
 			for _, p := range []string{"/things/1", "/unknown", "/things/1/relationships/many"} {
@@ -1519,6 +1846,62 @@ func main() {
 				}
 			}
 		}
+		// 3b. custom relationship resolvers: links presets x shared or fresh Links maps; single requests on
+		// every path and method, and histories against one API value
+		cpaths := []string{"/things/1", "/things/v1", "/things/v2", "/things/v3", "/things/v4", "/things/v5", "/things/v6",
+			"/things/1/owner", "/things/v1/owner", "/things/v2/owner", "/things/v3/owner", "/things/v4/owner", "/things/v5/owner", "/things/v6/owner",
+			"/things/1/tags", "/things/v1/tags", "/things/v2/tags", "/things/1/one", "/others/1/back", "/others/1",
+			"/things/1/relationships/owner", "/things/v1/relationships/owner", "/things/v2/relationships/owner", "/things/v3/relationships/owner",
+			"/things/v4/relationships/owner", "/things/v5/relationships/owner", "/things/1/relationships/tags", "/things/v2/relationships/tags",
+			"/others/1/relationships/back", "/things"}
+		for pi, preset := range linkPresetNames {
+			for _, shared := range []bool{true, false} {
+				specs := customSchema(preset, shared)
+				if shared || h.Thorough() || pi%2 == 0 {
+					for _, p := range cpaths {
+						depth := len(strings.Split(strings.TrimPrefix(p, "/"), "/"))
+						for _, m := range []string{"GET", "POST", "PATCH", "DELETE", "PUT"} {
+							bodies := []body{rawBody("")}
+							switch {
+							case m == "POST" && depth == 1:
+								bodies = []body{treeBody(jobj(f("data", jobj(f("type", jstr("things"))))))}
+							case m == "PATCH" && (depth == 2 || depth == 3):
+								bodies = []body{thingDoc("1"), thingDoc("v1"), thingDoc("v2"), thingDoc("v6")}
+							case depth == 4 && m == "PATCH":
+								bodies = []body{treeBody(jobj(f("data", jnull()))), treeBody(jobj(f("data", jid("others", "3")))), rawBody("{")}
+							case depth == 4 && (m == "POST" || m == "DELETE"):
+								bodies = []body{membersDoc(), membersDoc(jid("others", "1"), jid("things", "v1")), rawBody("[")}
+							}
+							for _, b := range bodies {
+								emit(specs, request{Method: m, Path: p, Accept: okAccept, Body: b})
+							}
+						}
+					}
+				}
+				for _, hist := range customHistories() {
+					hist := hist
+					h.Case(func(r *rng.R) sexp.Node { return runHistory(r, specs, hist) })
+				}
+			}
+		}
+		// 3c. bytes after the request document
+		for _, tail := range []string{" ", "\n\t \r", "}", " x", "{}", "\n]", "null", "\x00", ",", " \"data\""} {
+			for _, p := range []struct {
+				m, path string
+				b       jv
+			}{
+				{"PATCH", "/things/1", jobj(f("data", jid("things", "1")))},
+				{"POST", "/things", jobj(f("data", jobj(f("type", jstr("things")))))},
+				{"PATCH", "/things/1/one", jobj(f("data", jid("others", "1")))},
+				{"PATCH", "/things/1/relationships/one", jobj(f("data", jnull()))},
+				{"POST", "/things/1/relationships/many", jobj(f("data", jarr(jid("others", "1"))))},
+				{"DELETE", "/things/1/relationships/many", jobj(f("data", jarr()))},
+				{"PATCH", "/things/1", jnull()},
+			} {
+				b := p.b
+				emit(richSchema(15, 15, false), request{Method: p.m, Path: p.path, Accept: okAccept, Body: body{Tree: &b, Tail: tail}})
+			}
+		}
 		// 4. random schemas and requests
 		n := 6000
 		if h.Thorough() {
@@ -1534,6 +1917,31 @@ func main() {
 					specs = randSchema(r)
 				}
 				return runCase(r, specs, randRequest(r, specs))
+			})
+		}
+		// 5. random histories: 2-5 requests (mostly reads) against one API value
+		nh := 1500
+		if h.Thorough() {
+			nh = 60000
+		}
+		for i := 0; i < nh; i++ {
+			h.Case(func(r *rng.R) sexp.Node {
+				var specs []typeSpec
+				healthy = r.Chance(3, 4)
+				if r.Chance(1, 4) {
+					specs = customSchema(rng.Pick(r, linkPresetNames), r.Chance(3, 4))
+				} else {
+					specs = randSchema(r)
+				}
+				var hist []request
+				for k := r.Range(2, 5); k > 0; k-- {
+					rq := randRequest(r, specs)
+					if r.Chance(1, 2) {
+						rq.Method = "GET"
+					}
+					hist = append(hist, rq)
+				}
+				return runHistory(r, specs, hist)
 			})
 		}
 	})
